@@ -84,6 +84,44 @@ let rec parse_dt (toks : Stdlib.String.t list) : dt * Stdlib.String.t list =
        | [] -> failwith "dt lits")
   | _ -> failwith "dt"
 
+(* schemas and JSON values as space separated prefix tokens (see harness/props/c03.py) *)
+let on t = if t = "~" then None else Some (n_of_int (int_of_string t))
+let rec parse_schema (toks : Stdlib.String.t list) : schema * Stdlib.String.t list =
+  let oz t = if t = "~" then None else Some (z_of_int (int_of_string t)) in
+  let ex t = if t = "~" then XNone else if t = "t" then XBool true else if t = "f" then XBool false else XNum (z_of_int (int_of_string t)) in
+  let rec many k toks f = if k = 0 then ([], toks) else let (x, r) = f toks in let (xs, r') = many (k - 1) r f in (x :: xs, r') in
+  match toks with
+  | "I" :: mn :: mx :: xmn :: xmx :: mu :: r -> (SInt { c_min = oz mn; c_max = oz mx; c_xmin = ex xmn; c_xmax = ex xmx; c_mult = oz mu }, r)
+  | "N" :: r -> (SNum, r)
+  | "S" :: lo :: hi :: r -> (SStr (on lo, on hi), r)
+  | "B" :: r -> (SBool, r)
+  | "Z" :: r -> (SNullT, r)
+  | "E" :: k :: r -> let (xs, r') = many (int_of_string k) r (function t :: q -> (str_of_tok t, q) | [] -> failwith "enum") in (SEnum xs, r')
+  | "?" :: r -> let (s, r') = parse_schema r in (SNullable s, r')
+  | "A" :: lo :: hi :: r -> let (s, r') = parse_schema r in (SArr (s, on lo, on hi), r')
+  | "M" :: r -> let (s, r') = parse_schema r in (SMap s, r')
+  | "U" :: k :: r -> let (xs, r') = many (int_of_string k) r parse_schema in (SAny xs, r')
+  | "J" :: closed :: k :: r ->
+      let (ps, r') = many (int_of_string k) r
+          (function nm :: req :: q -> let (s, q') = parse_schema q in ((str_of_tok nm, (bool_of_tok req, s)), q') | _ -> failwith "prop") in
+      (SObj (ps, bool_of_tok closed), r')
+  | _ -> failwith "schema"
+let rec parse_json (toks : Stdlib.String.t list) : json * Stdlib.String.t list =
+  let rec many k toks f = if k = 0 then ([], toks) else let (x, r) = f toks in let (xs, r') = many (k - 1) r f in (x :: xs, r') in
+  match toks with
+  | "n" :: r -> (VNull, r)
+  | "t" :: r -> (VBool true, r)
+  | "f" :: r -> (VBool false, r)
+  | "i" :: z :: r -> (VInt (z_of_int (int_of_string z)), r)
+  | "s" :: t :: r -> (VStr (str_of_tok t), r)
+  | "a" :: k :: r -> let (xs, r') = many (int_of_string k) r parse_json in (VArr xs, r')
+  | "o" :: k :: r ->
+      let (xs, r') = many (int_of_string k) r (function nm :: q -> let (v, q') = parse_json q in ((str_of_tok nm, v), q') | [] -> failwith "member") in
+      (VObj xs, r')
+  | _ -> failwith "json"
+let ascii_of_str (s : n list) = Stdlib.String.concat "" (List.map (fun c -> Stdlib.String.make 1 (Char.chr (int_of_n c))) s)
+let words t = List.filter (fun x -> x <> "") (Stdlib.String.split_on_char ' ' t)
+
 let handle line =
   match String.split_on_char '\t' line with
   | "gvn" :: kind :: rest ->
@@ -223,6 +261,11 @@ let handle line =
            String.concat "," [so k.k_ge; so k.k_le; so k.k_gt; so k.k_lt; so k.k_mult] ^ "\t" ^
            (if sat_model k (z_of_int (int_of_string v)) then "1" else "0") ^ "\t" ^
            (if sat_schema c (z_of_int (int_of_string v)) then "1" else "0"))
+  | ["schema"; fc; st] -> let (sch, _) = parse_schema (words st) in ascii_of_str (gen_text (bool_of_tok fc) sch)
+  | ["sval"; st; jt] ->
+      let (sch, _) = parse_schema (words st) in
+      let (v, _) = parse_json (words jt) in
+      Stdlib.String.concat "" (List.map (fun b -> if b then "1" else "0") (verdicts sch v))
   | ["c2s"; s] -> tok_of_str (camel_to_snake u0 (str_of_tok s))
   | ["s2uc"; d; s] -> tok_of_str (s2uc u0 (n_of_int (int_of_string d)) (str_of_tok s))
   | _ -> "BADREQ"
